@@ -269,6 +269,23 @@ func Main(args []string) int {
 		WorkerMain()
 		return 0
 	}
+	if len(args) >= 2 && args[0] == "__explore" {
+		var spec Spec
+		if err := json.Unmarshal([]byte(args[1]), &spec); err != nil {
+			fmt.Println(err)
+			return 2
+		}
+		pool, _ := NewPool(NumWorkers())
+		st, found, err := Explore(pool, spec, time.Time{}, 5)
+		pool.Close()
+		fmt.Printf("states=%d transitions=%d depth=%d err=%v\n", st.States, st.Transitions, st.MaxDepth, err)
+		db, _ := json.Marshal(st.Deepest)
+		fmt.Printf("deepest: %s\n%s\n", OpsString(st.Deepest), db)
+		for _, f := range found {
+			fmt.Printf("  %s\n    [%s]\n", f.Msg, OpsString(f.Path))
+		}
+		return 0
+	}
 	if len(args) >= 2 && args[0] == "__sweep" {
 		return SweepMain(args[1])
 	}
